@@ -65,15 +65,14 @@ Theorem C01_rotated_planar2d_all_stabilizers_commute_for_all_sizes :
 Proof. exact RotatedPlanar2D.rotated_planar2d_stabilizers_commute. Qed.
 Print Assumptions C01_rotated_planar2d_all_stabilizers_commute_for_all_sizes.
 
-(** Layer P, Toric3DCode, every size L_x, L_y, L_z >= 2: a vertex (Z-type) generator and a face
-    (X-type) generator act on an even number of common qubits, hence commute.  (Generators of the
-    same type commute trivially; the supports are duplicate-free lists, so the parity of the
-    overlap counted from the vertex side is the parity of the intersection.) *)
+(** Layer P, Toric3DCode, every size L_x, L_y, L_z >= 2: all generators pairwise commute (same type:
+    trivially; a vertex (Z-type) and a face (X-type) generator share an even number of qubits, in
+    either order - the supports are proved duplicate-free so the overlap parity is symmetric). *)
 From PQ Require Toric3D.
-Theorem C01_toric3d_vertex_face_commute_for_all_sizes :
-  forall (Lx Ly Lz : BinNums.Z) v f, (2 <= Lx)%Z -> (2 <= Ly)%Z -> (2 <= Lz)%Z ->
-  In v (Toric3D.stab_coords Lx Ly Lz) -> In f (Toric3D.stab_coords Lx Ly Lz) ->
-  Toric3D.is_vertex v = true -> Toric3D.is_vertex f = false ->
-  Toric3D.overlap3 (Toric3D.support Lx Ly Lz v) (Toric3D.support Lx Ly Lz f) = false.
-Proof. exact Toric3D.toric3d_vertex_face_commute. Qed.
-Print Assumptions C01_toric3d_vertex_face_commute_for_all_sizes.
+Theorem C01_toric3d_all_stabilizers_commute_for_all_sizes :
+  forall (Lx Ly Lz : BinNums.Z) s s', (2 <= Lx)%Z -> (2 <= Ly)%Z -> (2 <= Lz)%Z ->
+  In s (Toric3D.stab_coords Lx Ly Lz) -> In s' (Toric3D.stab_coords Lx Ly Lz) ->
+  Toric3D.ops_commute3 (Toric3D.is_vertex s) (Toric3D.support Lx Ly Lz s)
+                       (Toric3D.is_vertex s') (Toric3D.support Lx Ly Lz s') = true.
+Proof. exact Toric3D.toric3d_stabilizers_commute. Qed.
+Print Assumptions C01_toric3d_all_stabilizers_commute_for_all_sizes.
